@@ -5,7 +5,7 @@ open Bmc.Proto.Metrics
 
 def attOf : Char → Option Att
   | 'F' => some (.final 0) | 'E' => some (.final 0xC1) | 'B' => some (.temp 0xC0) | 'T' => some (.temp 0xC3)
-  | 'X' => some .junk | 'G' => some .junk | 'L' => some .lost | _ => none
+  | 'X' => some .junk | 'G' => some .junk | 'L' => some .lost | 'K' => some .cancelled | _ => none
 
 def attsOf (s : String) : Option (List Att) := if s == "-" then some [] else s.toList.mapM attOf
 
